@@ -778,6 +778,14 @@ def role_shader0(rng, big_arrays=True, entry_names=False):
         bind("uniforms", "uniform", {"k": "struct", "name": "Uniforms"})
     if rng.random() < 0.6:
         S["structs"].append({"name": "Store", "members": host_members(rng, "storage_rw", inner, big_arrays)})
+        if rng.random() < 0.35:
+            # nested structs whose alignment is below 16, at offsets that are not multiples of 16 (storage buffers allow that)
+            small = rng.choice([[{"k": "scalar", "s": "f32"}, {"k": "scalar", "s": "u32"}], [{"k": "vec", "n": 2, "s": "f32"}], [{"k": "scalar", "s": "i32"}], [{"k": "vec", "n": 2, "s": "u32"}, {"k": "scalar", "s": "f32"}]])
+            S["structs"].append({"name": "Small", "members": [{"name": "s%d" % j, "ty": t} for j, t in enumerate(small)]})
+            ms = S["structs"][-2]["members"]
+            ms.insert(rng.randint(1, len(ms)), {"name": "small_a", "ty": {"k": "struct", "name": "Small"}})
+            if rng.random() < 0.5:
+                ms.append({"name": "small_b", "ty": rng.choice([{"k": "struct", "name": "Small"}, {"k": "array", "n": 3, "e": {"k": "struct", "name": "Small"}}])})
         bind("store", "storage_rw", rng.choice([{"k": "struct", "name": "Store"}, {"k": "array", "n": 3, "e": {"k": "struct", "name": "Store"}}]))
     if rng.random() < 0.3:
         el = rng.choice([{"k": "scalar", "s": "u32"}, {"k": "vec", "n": 4, "s": "f32"}, {"k": "vec", "n": 3, "s": "f32"}, {"k": "mat", "c": 3, "r": 3, "s": "f32"}] + ([{"k": "struct", "name": inner}] if inner else []))
